@@ -7,14 +7,14 @@ from vlib import engine, gen, kal, oracle
 
 ID = "C12"
 RULE = ("Inputs of 2..99 sequences (related family or unrelated) in which one or more members are repeated (multiplicity 2..6, "
-        "copies inserted at drawn positions; plus a boundary class: a 540..700-residue sequence, duplicated, with two shorter sequences constructed to lie at reduced-alphabet semi-global distance exactly 255/256/257 from it), all types and thread counts (type default penalties: the property does not quantify over user penalties), array and file API. Premise checked per case by an "
+        "copies inserted at drawn positions; plus a boundary class: a 540..700-residue sequence, duplicated, with two shorter sequences constructed to lie at reduced-alphabet semi-global distance exactly 255/256/257 from it; and a near-fragment class: a random sequence of 40..9000 residues (12000..30000, thorough ..45000, enumerated in extra()), 2..3 copies, plus 1..3 fragments of it whose windows overlap one position and which carry 1..2 edits each at neighbouring or at random positions), all types and thread counts (type default penalties: the property does not quantify over user penalties), array and file API. Premise checked per case by an "
         "independent Sellers semi-global edit distance in python: for each duplicated sequence d and every other distinct "
         "sequence t, distance(longer as text, shorter as pattern) >= 1 on the case-folded full alphabet and on the reduced "
         "alphabet used for guide-tree distances (nucleotide: U=T, IUPAC codes=N; protein: the 13 published classes LM, IV, KR, "
         "EQZ, AST, NDB, FY, C, G, H, P, W, X); cases failing it are discarded and counted. Oracle: all copies of a sequence have "
         "byte-identical rows. Non-trivial = >= 3 distinct sequences and the copies' rows contain a gap.")
 ASSUMPTIONS = ["premise evaluated on the first 1024 symbols of the pattern, as the distance kernel does"]
-BUDGET = {"quick": dict(examples=220, workers=12, seconds=75), "thorough": dict(examples=1200, workers=16, seconds=600)}
+BUDGET = {"quick": dict(examples=220, workers=14, seconds=90), "thorough": dict(examples=1200, workers=16, seconds=600)}
 
 _PROT_CLASS = {}
 for grp in ["LM", "IV", "KR", "EQZ", "AST", "NDB", "FY", "C", "G", "H", "P", "W"]:
@@ -32,16 +32,17 @@ def reduce_dna(s):
 
 def contained(a, b, red):
     """True when the shorter of a,b matches a substring of the longer exactly (distance 0) under `red`."""
+    from vlib import dporacle
     x, y = red(a), red(b)
     if len(x) < len(y):
         x, y = y, x
-    return oracle.sellers(x, y[:1024]) == 0
+    return dporacle.sellers(x, y[:1024]) == 0
 
 
 @st.composite
 def cases(draw, tier):
     k, alpha = draw(gen.alphabets())
-    shape = draw(st.sampled_from(["family", "family", "unrelated", "boundary"]))
+    shape = draw(st.sampled_from(["family", "family", "unrelated", "boundary", "nearfrag"]))
     maxn = 30 if tier == "quick" else 90
     if shape == "boundary":
         # guide-tree distances at the edges of small integer types: two shorter sequences whose semi-global distance to the
@@ -49,6 +50,17 @@ def cases(draw, tier):
         return {"boundary": {"seed": draw(st.integers(0, 2 ** 32 - 1)), "kind": k, "targets": [draw(st.sampled_from([255, 256, 256, 257])),
                                                                                               draw(st.sampled_from([255, 256, 256, 257]))],
                              "la": draw(st.integers(540, 700)), "extra": draw(st.integers(0, 3))},
+                "seqs": None, "cfg": {"type": draw(gen.types_for(k)), "threads": draw(gen.threads), "gpo": -1.0, "gpe": -1.0, "tgpe": -1.0},
+                "entry": draw(st.sampled_from(["arr", "file"])), "shape": shape}
+    if shape == "nearfrag":
+        # a duplicated sequence of any length up to 30000 and short fragments of it that are one or two edits away from being
+        # contained: the guide tree must still put the copies together (distance 0 against distance 1 plus whatever else
+        # enters the distance)
+        return {"nearfrag": {"seed": draw(st.integers(0, 2 ** 32 - 1)), "kind": k,
+                             "la": draw(st.sampled_from([40, 80, 150, 400, 1100, 3000, 9000])),
+                             "copies": draw(st.sampled_from([2, 2, 3])), "nfrag": draw(st.integers(1, 3)),
+                             "edits": draw(st.sampled_from([1, 1, 2])), "fl": draw(st.integers(12, 40)),
+                             "near": draw(st.booleans())},
                 "seqs": None, "cfg": {"type": draw(gen.types_for(k)), "threads": draw(gen.threads), "gpo": -1.0, "gpe": -1.0, "tgpe": -1.0},
                 "entry": draw(st.sampled_from(["arr", "file"])), "shape": shape}
     if draw(st.integers(0, 9)) == 0:
@@ -118,7 +130,41 @@ def build_boundary(b):
     return seqs
 
 
+def build_nearfrag(b):
+    """A (copies) + fragments of A whose windows overlap one position p of A; each fragment carries its edits (an inserted or
+    substituted residue) at p, p+1 or p+2 ('near': the copies meet competing gaps at neighbouring columns) or anywhere in
+    its window"""
+    rnd = random.Random(b["seed"])
+    alpha = gen.NUC if b["kind"] == "dna" else gen.AA
+    A = "".join(rnd.choice(alpha) for _ in range(b["la"]))
+    p = rnd.randint(0, b["la"] - 1)
+    letter = rnd.choice(alpha)
+    frags = []
+    for i in range(b["nfrag"]):
+        lo = max(0, p - rnd.randint(6, max(6, b["fl"] * 2)))
+        hi = min(b["la"], p + 1 + rnd.randint(6, max(6, b["fl"] * 2)))
+        f = list(A[lo:hi])
+        for _ in range(b["edits"]):
+            pos = min(len(f), max(0, (p - lo) + rnd.choice([0, 1, 1, 2]))) if b["near"] else rnd.randint(0, len(f))
+            x = letter if rnd.random() < 0.6 else rnd.choice(alpha)
+            if rnd.random() < 0.7 or pos >= len(f):
+                f.insert(pos, x)
+            else:
+                f[pos] = rnd.choice([y for y in alpha if y != f[pos]])
+        frags.append("".join(f))
+    seqs = [A]
+    for f in frags:
+        seqs.append(f)
+        if len([x for x in seqs if x == A]) < b["copies"]:
+            seqs.append(A)
+    while len([x for x in seqs if x == A]) < b["copies"]:
+        seqs.append(A)
+    return seqs
+
+
 def check(case):
+    if case.get("nearfrag"):
+        case = dict(case, seqs=build_nearfrag(case["nearfrag"]))
     if case.get("boundary"):
         built = build_boundary(case["boundary"])
         if built is None:
@@ -147,11 +193,14 @@ def check(case):
                 continue
             if contained(d, t, full) or contained(d, t, red):
                 return engine.discard("containment premise fails")
+    variant = "plain" if max(len(x) for x in seqs) > 5000 else "asan"
+    if variant == "plain":
+        cl.append("len>5000")
     try:
         if case["entry"] == "arr":
-            rows = kal.align_arr(seqs, cfg)["rows"]
+            rows = kal.align_arr(seqs, cfg, variant=variant)["rows"]
         else:
-            rows = kal.align_named(["s%d" % i for i in range(len(seqs))], seqs, cfg)["rows"]
+            rows = kal.align_named(["s%d" % i for i in range(len(seqs))], seqs, cfg, variant=variant)["rows"]
     except kal.Failure as f:
         if f.ended.kind == "hang":
             return engine.discard("cpu-limit (inconclusive; hangs are judged by C05)")
@@ -245,4 +294,22 @@ def extra(tier, seed, stats):
                 stats.record(case, r)
                 if r["status"] == "violation":
                     out.append({"case": case, "detail": r["detail"], "kind": r.get("kind")})
+    # very long duplicated sequences with competing near-fragments (anything in the guide-tree distance that grows with
+    # the length shows only here), enumerated over lengths and construction seeds
+    from concurrent.futures import ThreadPoolExecutor
+    lens = [12000, 21000, 24000, 30000] if tier == "quick" else [9000, 12000, 16000, 21000, 24000, 30000, 45000]
+    per = 10 if tier == "quick" else 40
+    cases_ = []
+    for la in lens:
+        for i in range(per):
+            cases_.append({"nearfrag": {"seed": seed * 1000 + la + i, "kind": "dna" if i % 2 else "protein", "la": la, "copies": 2 + (i % 5 == 4),
+                                        "nfrag": 2 + i % 2, "edits": 1, "fl": 20 + i, "near": True}, "seqs": None,
+                           "cfg": {"type": 5, "threads": 1 + i % 4, "gpo": -1.0, "gpe": -1.0, "tgpe": -1.0}, "entry": "file" if i % 3 else "arr",
+                           "shape": "nearfrag_long"})
+    with ThreadPoolExecutor(max_workers=12) as ex:
+        res = list(ex.map(check, cases_))
+    for c, r in zip(cases_, res):
+        stats.record(c, r)
+        if r["status"] == "violation":
+            out.append({"case": c, "detail": r["detail"], "kind": r.get("kind")})
     return out
